@@ -17,6 +17,7 @@ type reader struct {
 	conn              transport.Conn
 	buf               *bufio.Reader
 	connect           chan interface{}
+	quit              chan struct{}
 	onConnectionClose signalConnectionClose
 	processIncoming   signalIncoming
 	log               *zap.SugaredLogger
@@ -78,6 +79,17 @@ func (s *reader) routine() {
 			if err = s.conn.SetReadDeadline(time.Now().Add(s.keepAlive)); err != nil {
 				return
 			}
+		}
+
+		// the close sequence of the connection gets this routine out of its read with a deadline of a
+		// microsecond. When it starts while a packet is being processed here, the keep-alive deadline
+		// set above has just replaced that one, and the read below would wait for the client - for
+		// up to one and a half keep-alive periods - with a take-over, or the shutdown, waiting behind
+		// it. quit is closed before the close sequence sets its deadline
+		select {
+		case <-s.quit:
+			return
+		default:
 		}
 
 		if pkt, err = s.readPacket(buf); err != nil {
